@@ -167,8 +167,10 @@ func (x *Exec) doRecv(st *State, u *ssa.UnOp, chv Val, chSSA ssa.Value, commaOk 
 	ok := True
 	if commaOk && x.P.mayBeClosed(chSSA.Type()) {
 		ok = x.freshVar("recv_ok", SBool)
-		// a receive yields !ok only from a closed channel
-		st.add(Implies(Not(ok), x.closedAt(st, st.heapArr(ghClosed, heapSorts[ghClosed]), ch)))
+		// a receive yields !ok only from a closed channel: another goroutine may have closed it
+		// since we last looked, so this is something the receiver learns, not a constraint on ok
+		carr := st.heapArr(ghClosed, heapSorts[ghClosed])
+		st.heap[ghClosed] = Store(carr, ch, Or(x.closedAt(st, carr, ch), Not(ok)))
 		st.add(Implies(Not(ok), Eq(v, zeroOf(et))))
 	}
 	if ct := x.P.ChanInv[chanRole(chSSA)]; ct != nil && len(ct.Requires) > 0 && commaOk {
@@ -268,7 +270,8 @@ func (x *Exec) doSelect(st *State, s *ssa.Select) bool {
 					if !x.P.mayBeClosed(sc.Chan.Type()) {
 						cur.add(ok)
 					}
-					cur.add(Implies(Not(ok), x.closedAt(cur, cur.heapArr(ghClosed, heapSorts[ghClosed]), ch)))
+					carr := cur.heapArr(ghClosed, heapSorts[ghClosed])
+					cur.heap[ghClosed] = Store(carr, ch, Or(x.closedAt(cur, carr, ch), Not(ok)))
 					cur.add(Implies(Not(ok), Eq(v, zeroOf(et))))
 					x.recvFacts(cur, sc.Chan, ch, v, et, ok)
 					tup[1] = Val{T: ok}
